@@ -110,6 +110,19 @@ class C17(Prop):
                 for sink in ("file", "vec", "box"):
                     lines.append(case(sink, fg, bg, [], d, []))
         yield "kib-sized-data", lines
+        # a real File that cannot be written (/dev/full, read-only descriptor): the failure reaches the caller
+        lines = []
+        for fg, bg in PAIRS[::7] + [("-", "-"), ("1", "-"), ("-", "4")]:
+            for d in FIXED_DATA + [[0x61] * 100, [0x62] * 9000]:
+                for sink in ("full", "ro"):
+                    lines.append(case(sink, fg, bg, [], d, []))
+        yield "files-that-fail", lines
+        # the impls for std::io::Stdout / Stderr (child process, pipes captured)
+        lines = []
+        for i, (fg, bg) in enumerate(PAIRS[::5] + [("-", "-"), ("9", "-"), ("-", "12")]):
+            for d in FIXED_DATA[:6] if not thorough else FIXED_DATA:
+                lines.append(case("out" if i % 2 else "err", fg, bg, [], d, []))
+        yield "real-std-streams", lines
 
         # 2. every pair x every accepted prefix of the data (codes accepted whole)
         lines = []
